@@ -601,8 +601,58 @@ def run_bsub(job):
     return ('bsubdir', '%s consumed as %s [%s, %s]' % (p, c, layout, place), outcome, v, st, {'files': files, 'args': args})
 
 
+# ---- alias targets over run targets, aliases and custom targets, at the top level and inside (nested) subprojects ------------
+ALIAS_DEPS = {'run': 'r', 'alias': 'a0', 'custom': 'c', 'alias-of-run': 'a1'}
+ALIAS_PLACES = ['top', 'subproject', 'nested-subproject', 'subdir-of-subproject']
+
+
+def aliasrun_cases():
+    out = []
+    names = sorted(ALIAS_DEPS)
+    for n in (1, 2, 3):
+        for deps in itertools.combinations(names, n):
+            for place in ALIAS_PLACES:
+                out.append((deps, place))
+    return out
+
+
+def run_aliasrun(job):
+    """A phony statement's inputs are names of other statements: the name an alias uses for a run target (or another alias) must be the
+    name that target's own statement has - which carries the subproject's name as a prefix."""
+    from verif import mesonproc as mp
+    idx, deps, place = job
+    root = os.path.join(scratch_root(), 'c04a.%d' % os.getpid())
+    shutil.rmtree(root, ignore_errors=True)
+    body = ["c = custom_target('c_out', output: 'c_out.txt', command: ['touch', '@OUTPUT@'])",
+            "r = run_target('runme', command: ['true'])", "a0 = alias_target('a_zero', c)", "a1 = alias_target('a_one', r)",
+            "alias_target('the_alias', %s)" % ', '.join(ALIAS_DEPS[d] for d in deps)]
+    files = {}
+    if place == 'top':
+        files['meson.build'] = '\n'.join(["project('ar')"] + body) + '\n'
+    elif place == 'subproject':
+        files['meson.build'] = "project('ar')\nsubproject('sp')\n"
+        files['subprojects/sp/meson.build'] = '\n'.join(["project('sp')"] + body) + '\n'
+    elif place == 'nested-subproject':
+        files['meson.build'] = "project('ar')\nsubproject('outer')\n"
+        files['subprojects/outer/meson.build'] = "project('outer')\nsubproject('sp')\n"
+        files['subprojects/sp/meson.build'] = '\n'.join(["project('sp')"] + body) + '\n'
+    else:
+        files['meson.build'] = "project('ar')\nsubproject('sp')\n"
+        files['subprojects/sp/meson.build'] = "project('sp')\nsubdir('d')\n"
+        files['subprojects/sp/d/meson.build'] = '\n'.join(body) + '\n'
+    mp.write_tree(root, files)
+    res = mp.run_meson(['setup', 'b'], root)
+    outcome, v, st = judge_setup(res, os.path.join(root, 'b'))
+    if outcome != 'configured' and not v:
+        v.append(('C04:INTERNAL', 'alias project rejected: ' + res.out[-300:]))
+    shutil.rmtree(root, ignore_errors=True)
+    return ('aliasrun', 'alias_target(%s) @%s' % (', '.join(deps), place), outcome, v, st, {'files': files, 'args': []})
+
+
 def dispatch(job):
     kind = job[0]
+    if kind == 'aliasrun':
+        return run_aliasrun(job[1:])
     if kind == 'bsubdir':
         return run_bsub(job[1:])
     if kind == 'linkkinds':
@@ -690,6 +740,10 @@ def main():
     if ck.want('failsub'):
         for things, fail in failsub_cases(ck.thorough):
             jobs.append(('failsub', idx, things, fail))
+            idx += 1
+    if ck.want('aliasrun'):
+        for deps, place in aliasrun_cases():
+            jobs.append(('aliasrun', idx, deps, place))
             idx += 1
     if ck.want('bsubdir'):
         for p, c, layout, place in bsub_cases(ck.thorough):
